@@ -15,7 +15,7 @@ from secsgem.gem.remote_command import RemoteCommand
 from secsgem.gem.control_state_machine import ControlState
 from secsgem.secs import variables as V
 
-SV_A, SV_B, EC_A, AL_A, CE_A = 31, 32, 41, 51, 61
+SV_A, SV_B, EC_A, AL_A, CE_A, EC_B = 31, 32, 41, 51, 61, 42
 
 
 def _pair():
@@ -46,6 +46,8 @@ def _populate(eh, va, vb, ec_val, en, st):
     eh._status_variables[SV_B].value = vb
     eh._equipment_constants[EC_A] = EquipmentConstant(EC_A, "ecA", -100, 1000, 0, "s", V.I4, False)
     eh._equipment_constants[EC_A].value = ec_val
+    eh._equipment_constants[EC_B] = EquipmentConstant(EC_B, "ecB", 0, 9, 0, "s", V.U1, False)
+    eh._equipment_constants[EC_B].value = 5
     eh._collection_events[CE_A] = CollectionEvent(CE_A, "ceA", [])
     eh._alarms[AL_A] = Alarm(AL_A, "alA", "text A", 3, CE_A, CE_A)
     eh._alarms[AL_A].enabled, eh._alarms[AL_A].set = en, st
@@ -54,11 +56,19 @@ def _populate(eh, va, vb, ec_val, en, st):
 def status_and_constants(va: int, vb: int, ec_val: int, new: int, which: int) -> bool:
     """
     pre: 0 <= va < 2**32 and -2**15 <= vb < 2**15 and -100 <= ec_val <= 1000 and -2**31 <= new < 2**31
-    pre: 0 <= which <= 4
+    pre: 0 <= which <= 5
     post: _
     """
     hh, hp, eh, ep = _pair()
     _populate(eh, va, vb, ec_val, False, False)
+    if which == 5:
+        # two constants in one call: the second one (0..9) refused => nothing applied; both fine => both applied
+        b_new = new % 16
+        ack = hh.set_ecs([[EC_A, 7], [EC_B, b_new]])
+        now_a, now_b = eh._equipment_constants[EC_A].value, eh._equipment_constants[EC_B].value
+        if b_new <= 9:
+            return fin(ack == 0 and now_a == 7 and now_b == b_new and hh.request_ecs([EC_A, EC_B]).get() == [7, b_new])
+        return fin(ack != 0 and now_a == ec_val and now_b == 5 and hh.request_ecs([EC_A, EC_B]).get() == [ec_val, 5])
     if which == 0:
         return fin(hh.request_svs([SV_B, 999, SV_A]).get() == [vb, [], va] and hh.request_sv(SV_A) == va)
     if which == 1:
@@ -161,7 +171,7 @@ def remote_command(p1: int) -> bool:
 
 
 OBLIGATIONS = [
-    dict(name="status_and_constants", fn="status_and_constants", timeout=600, parts=["which == %d" % i for i in range(5)],
+    dict(name="status_and_constants", fn="status_and_constants", timeout=600, parts=["which == %d" % i for i in range(6)],
          functions=["SecsHandler.request_svs/request_sv/list_svs/request_ecs/list_ecs/set_ec", "equipment _on_s01f03/_on_s01f11/_on_s02f13/"
                     "_on_s02f29/_on_s02f15", "encode/decode of S1F3/4/11/12, S2F13/14/15/16/29/30 in both directions"],
          bounds="two status variables and a constant with symbolic values (full U4 / I2 / I4 width), known and unknown ids; set_ec with "
